@@ -738,6 +738,8 @@ func (e *c04Env) openWAL() *c04WAL {
 	}
 	w.SetFlushInterval(time.Hour) // only explicit calls flush
 	w.SetLogger(log.NewNopLogger())
+	hsz, _ := w.Group().Head.Size()
+	e.emit(map[string]interface{}{"ev": "WalOpen", "head_empty": hsz == 0, "files": w.Group().MaxIndex()})
 	if err := w.Start(); err != nil { // writes and syncs #ENDHEIGHT 0 into an empty file
 		panic(err)
 	}
